@@ -258,6 +258,14 @@ def _oracle(ctx):
                     worst[key] = max(worst.get(key, 0), err)
                     if not (err <= TOL):
                         ctx.fail(key, f'vector Poisson patch test: deviation {err:.2e} (rel)', {'mesh': desc, 'info': info, 'error': err})
+                key = f'patch:sequence-one-basis:{kind}:{type(selem).__name__}'
+                r = _guard(ctx, key, {'mesh': desc}, lambda: O.patch_sequence(m, selem, deg, rng))
+                if r is not None:
+                    err, info = r
+                    ctx.count((key, desc, info), nontrivial=True)
+                    stats['patch'] = max(stats['patch'], err if err < 1.0 else 0.0)
+                    if not (err <= TOL):
+                        ctx.fail(key, f'{info["what"]} (sequence {info["sequence"]}; error {err:.2e})', {'mesh': desc, 'info': info, 'error': err})
             # projections
             for ef, deg in O.elements_for(kind):
                 elem = ef()
